@@ -433,8 +433,16 @@ func c01AtomsFor(rng *rand.Rand, rows []c01Row, maxPerCol int) []*c01E {
 
 func c01Stack() string {
 	s := string(debug.Stack())
-	if len(s) > 1800 {
-		s = s[:1800] + "..."
+	// keep the frames of the code under test: start after the runtime's panic frame
+	if i := strings.Index(s, "\npanic("); i >= 0 {
+		if j := strings.Index(s[i+1:], "\n\t"); j >= 0 {
+			if k := strings.Index(s[i+1+j+1:], "\n"); k >= 0 {
+				s = s[i+1+j+1+k+1:]
+			}
+		}
+	}
+	if len(s) > 900 {
+		s = s[:900] + "..."
 	}
 	return s
 }
